@@ -1,13 +1,13 @@
 """Shared engine of C14 / C15: triangular-bijective models x option sets through the real Model.simplify.
 
-Models.  One state s (der(s) = F0), one input u, parameters p = 2, p2 = 3 * p (an expression), a constant
-k = 1.5, and n algebraic unknowns a1..an; unknown a_i is defined from one earlier quantity w (s, u or an
+Models.  One state s (der(s) = F0), one input u, parameters p = 2, p2 = 3 * p (an expression), constants
+k = 1.5 and k2 = 2 * k (an expression), and n algebraic unknowns a1..an; unknown a_i is defined from one earlier quantity w (s, u or an
 earlier a_j) by one *form*:
 
     base   v = 2 * w + 1                        nothing to eliminate
     alias  v = w | v = -w | v + w = 0 | w - v = 0 | -v = w | 0 = v - w
     const  v = 3 | 0 = v - 3 | v = p | v = 2 * p2 + k | v + 3 = 0 | v = 0
-    affine 2 * v = 4 * w | v = k * w | v - 2 * w = p | v = (w + 1) / 2
+    affine 2 * v = 4 * w | v = k * w | v = k2 * w + k | v - 2 * w = p | v = (w + 1) / 2
     ifelse v = if u > 0 then w else -w | v = if u > 0 then 2 * w else 3
 
 so for any (s, u) the equations determine der(s) and every a_i uniquely; the system is square and
@@ -29,7 +29,7 @@ from vf.ref import linalg as L
 from vf.ref import mast as M
 from vf.ref.mast import B, N, V, Decl, Model
 
-PVAL = {"p": Fraction(2), "p2": Fraction(6), "k": Fraction(3, 2)}
+PVAL = {"p": Fraction(2), "p2": Fraction(6), "k": Fraction(3, 2), "k2": Fraction(3)}
 
 SWITCHES = [
     "expand_mx", "expand_vectors", "resolve_parameter_values", "replace_parameter_expressions",
@@ -62,6 +62,7 @@ FORMS = {
     "const-pexpr": (lambda v, w: ("eq", v, B("+", B("*", N(2), V("p2")), V("k"))), lambda w: 2 * PVAL["p2"] + PVAL["k"], "const"),
     "factor": (lambda v, w: ("eq", B("*", N(2), v), B("*", N(4), w)), lambda w: 2 * w, "affine"),
     "scaled-k": (lambda v, w: ("eq", v, B("*", V("k"), w)), lambda w: PVAL["k"] * w, "affine"),
+    "scaled-k2": (lambda v, w: ("eq", v, B("+", B("*", V("k2"), w), V("k"))), lambda w: PVAL["k2"] * w + PVAL["k"], "affine"),
     "affine-p": (lambda v, w: ("eq", B("-", v, B("*", N(2), w)), V("p")), lambda w: 2 * w + PVAL["p"], "affine"),
     "half": (lambda v, w: ("eq", v, B("/", B("+", w, N(1)), N(2))), lambda w: (w + 1) / 2, "affine"),
     "ifelse": (lambda v, w: ("eq", v, ("if", B(">", V("u"), N(0)), w, neg(w))), None, "ifelse"),
@@ -120,6 +121,8 @@ class Spec:
             Decl("p", prefix="parameter", value=N(2)), Decl("p2", prefix="parameter", value=B("*", N(3), V("p"))),
             Decl("k", prefix="constant", value=N("1.5")),
         ]  # fmt: skip
+        if "scaled-k2" in self.forms:  # a constant defined by another constant, only where it is used
+            decls.append(Decl("k2", prefix="constant", value=B("*", N(2), V("k"))))
         eqs = [("eq", ("der", V("s")), F0S[self.f0](self.n))]
         for i, (f, d) in enumerate(zip(self.forms, self.deps)):
             decls.append(Decl("a%d" % (i + 1)))
@@ -406,6 +409,13 @@ def compile_simplified(text, options):
         model = generator.generate(_tree(text), "M", options)
         pre = (scalar_count(model.states) + scalar_count(model.alg_states), residual_len(model))
         model._vf_pre = pre
+        model._vf_pre_ok = {}
+        for fname in ("initial_residual_function", "variable_metadata_function"):
+            try:
+                getattr(model, fname)
+                model._vf_pre_ok[fname] = True
+            except Exception:  # noqa: BLE001 -- not constructible even before simplification: not simplify's doing
+                model._vf_pre_ok[fname] = False
         model.check_balanced()
         n_pre = len(cap.records)
         phase = "simplify"
